@@ -24,6 +24,7 @@ LEVEL_TEXT += (" (E7.p) every call of a parse_* function or mandatory token is m
 LEVEL_TEXT += (' (E7.eof) no top-level item — nor the file loop — has a successful path whose last look at the input is an end-of-input-fatal `peek()?`.')
 
 LEVEL_TEXT += (' (E7.kind) `{…}` parses to SetLiteral / SetComprehension, `[…]` to the list forms; E7.p also covers the peeks that decide how a whitespace-skipping function goes on.')
+LEVEL_TEXT += (" (E7.keep) in the parser's list loops every parsed element is pushed.")
 POS_FIELDS = ("offset", "location", "chars")
 
 
@@ -54,6 +55,39 @@ def literal_kinds(prog, rep, rule="E7.kind"):
         wrong = sorted(set(built) - allowed)
         rep.check(bool(built) and not wrong and allowed <= set(built), rule, "%s :: forms" % fn, f.loc(), "builds %s" % sorted(built),
                   "%s builds %s (%s): a literal written with %s is loaded as the other collection kind" % (fn, sorted(built), ", ".join("%s at %s" % (w, built[w]) for w in wrong) or "missing %s" % sorted(allowed - set(built)), "{ }" if fn == "parse_set" else "[ ]"))
+    return n
+
+
+def parsed_elements_kept(prog, rep, rule="E7.keep"):
+    """every element the parser reads in a list loop ends up in the list: in a loop that both parses an element (`parse_*`) and
+    pushes to a Vec, no path from the parse to the next round or to a successful exit avoids the push (a failure exit does)"""
+    from ..lib.cfgq import natural_loops
+    from ..engines.e2_errflow import _failure_blocks
+    rep.rule(rule, "in the parser's list loops (attributes, statements, conditions, sequences, stanzas, globals …) every element that was parsed is pushed: no path from the parse call to the next iteration or the loop's exit skips the push, except by failing")
+    n = 0
+    for f in sorted([x for x in prog.shape_fns() if x.body is not None and x.self_path == "tsg::parser::Parser" and x.kind != "closure"], key=lambda x: x.id):
+        body = f.body
+        fails = _failure_blocks(body)
+        for li, (h, bl) in enumerate(sorted(natural_loops(body))):
+            parses = {b for b in bl if body.term(b)["k"] == "call" and (callee_fn(body.term(b)).get("def", "").rsplit("::", 1)[-1].startswith("parse_"))
+                      and callee_fn(body.term(b)).get("def", "").startswith("tsg::parser::Parser")}
+            pushes = {b for b in bl if body.term(b)["k"] == "call" and is_callee(body.term(b), r"Vec::<T, A>::push$")}
+            if not parses or not pushes:
+                continue
+            # only the parses whose value can reach a push at all (an element parse, not e.g. a name that becomes part of one)
+            elem = {p_ for p_ in parses if body.reach_from(list(body.succ(p_)), avoid={h}, edge_filter=lambda a, b2: b2 in bl) & pushes}
+            if not elem:
+                continue
+            n += 1
+            bad = []
+            for p_ in sorted(elem):
+                start = [s2 for s2 in body.succ(p_)]
+                r = body.reach_from(start, avoid=pushes | fails | (parses - {p_}), edge_filter=lambda a, b2: True)
+                # reaching the header again, or leaving the loop towards a return, without a push
+                if h in r or any(x not in bl and x not in fails for x in r if body.term(x)["k"] == "return"):
+                    bad.append(sp_str(body.term(p_)["sp"]))
+            rep.check(not bad, rule, "%s :: list loop #%d" % (f.id, li), f.loc(), "every parsed element is pushed",
+                      "an element parsed at %s can be dropped (the next round or the end of the list is reached without `push`): part of the written program is missing from the AST" % ", ".join(bad[:2]))
     return n
 
 
@@ -129,6 +163,8 @@ def run(prog, rep):
         rep.violation("E7.w", "anchor-lost:Location::advance", "", "not found")
     nk = literal_kinds(prog, rep)
     rep.floor("E7.kind", nk, 2, "collection literal parsers")
+    nkp = parsed_elements_kept(prog, rep)
+    rep.floor("E7.keep", nkp, 4, "list loops of the parser")
     # ---- E7.h: what the parser does next depends on the text at the position, not on what it has parsed before
     rep.rule("E7.h", "no parse decision depends on parser state other than the position: a Parser field that is written after construction (besides offset / location / chars) is never tested by a branch of the parser")
     padt = prog.adts.get("tsg::parser::Parser")
